@@ -497,6 +497,9 @@ class SAMIWriter(BaseWriter):
             if later:
                 last_sync = later[0]
                 last_sync.insert_before(sync)
+            else:
+                # no other sync yet (the first language has no captions)
+                sami.body.append(sync)
         return sami, sync
 
     def _recreate_blank_tag(self, sami, caption, lang, primary, captions):
